@@ -39,6 +39,26 @@ THEOREMS = {
     "C08_gamma_block_tau0": "tau0 draw likewise",
     "C08_gamma_block_gam": "multiplicative gamma process: gam[d] draw likewise with tau = cumprod gam, for ln additive on positives, positive gam",
     "C08_gamma_block_gam_is_the_draw": "the (shape, rate) of the previous theorem are literally the head draw of the gamma-process program",
+    "C08_horseshoe_draws_V0": "_prec_V0_step is exactly four gamma draws (aux of phi0, phi0, aux of eta0, eta0) with shapes 1, 1, 1, (1+n_drugdoses)/2, then returns",
+    "C08_horseshoe_draws_V2": "same for _prec_V2_step (matrix / vector draws)",
+    "C08_horseshoe_draws_V1": "same for _prec_V1_step",
+    "C08_horseshoe_phiaux0": "phiaux0 draw Gamma(sh, rates): energy_hs(aux:=x) - energy_hs(aux:=x') = sum_m [-2(sh-1)(ln x_m - ln x'_m) + 2 rates_m (x_m - x'_m)] for all vectors x, x', every ln, every tilt j: the joint full conditional of the whole auxiliary vector under the complete joint (horseshoe hyper-priors in gamma-mixture form included)",
+    "C08_horseshoe_phi0": "phi0 draw Gamma(sh, rates) given the drawn auxiliaries: same identity in phi0 (whole vector), tilt j = 0.001, ln additive on positives, eta0 > 0, positive candidates",
+    "C08_horseshoe_etaaux0": "etaaux0 draw Gamma(sh, r): same identity in the auxiliary of eta0, in any state with the same eta0 (so also after the phi0 update)",
+    "C08_horseshoe_eta0": "eta0 draw Gamma(sh, r) given the drawn auxiliary, in the state holding the new clipped phi0 (positive): same identity in eta0",
+    "C08_horseshoe_stored0": "_prec_V0_step stores clip(phi0 draw) and clip(eta0 draw) and changes nothing else the joint reads",
+    "C08_horseshoe_phiaux2": "as phiaux0 for the (n_drugdoses x D) auxiliaries of phi2 (double sum over entries)",
+    "C08_horseshoe_phi2": "as phi0 for the matrix phi2 (eta2 > 0 entrywise)",
+    "C08_horseshoe_etaaux2": "as etaaux0 for the D auxiliaries of eta2",
+    "C08_horseshoe_eta2": "as eta0 for the vector eta2 (shape (1+n_drugdoses)/2, rate aux_k + sum_m phi2[m,k] V2[m,k]^2 / 2 + 0.001)",
+    "C08_horseshoe_stored2": "_prec_V2_step stores the clipped phi2 / eta2 draws and changes nothing else the joint reads",
+    "C08_horseshoe_phiaux1": "as phiaux2 for V1",
+    "C08_horseshoe_phi1": "as phi2 for V1",
+    "C08_horseshoe_etaaux1": "as etaaux2 for V1",
+    "C08_horseshoe_eta1": "as eta2 for V1",
+    "C08_horseshoe_stored1": "as stored2 for V1",
+    "C08_horseshoe_joint_extends": "energy_hs - energy does not depend on anything but phi/eta/auxiliaries: every Gaussian / gamma block theorem about energy is a theorem about the complete joint energy_hs",
+    "C08_horseshoe_jitter_is_tilt": "energy_hs(j) = energy_hs(0) + 2 j (sum of all horseshoe precisions): the code's '+1e-3 for stability' is an exponential tilt exp(-0.001 p) of the plain half-Cauchy prior; against the plain model (j = 0) the phi/eta draws have the exact shape and a rate larger by exactly 0.001, the auxiliary draws are exact",
     "C08_clip_bounds": "tau0, prec (n > 0), eta0, phi0, eta2, phi2, eta1, phi1, tau lie in [1/sqrt(1+k), 1e6] after their step",
     "C08_prec_unclipped_without_data_refuted": "REFUTED clause: with no observation _prec_obs_step stores the draw unclipped (witness 2e6 > 1e6)",
     "C08_cache_invariant": "under NoSelfCombo, after any sequence of step functions and for all draw results Mu = reconstruct(state)",
@@ -58,8 +78,15 @@ ASSUMPTIONS = [
 EXPLANATION = ("Model: Model/Gibbs.v (sampler as a program of draws), Model/Mvn.v; independent specification Model/GibbsSpec.v "
                "(energy = -2 log joint of the documented model for an arbitrary function ln). Nothing of DESIGN 5/C08 was dropped: all five "
                "Gaussian blocks, prec / tau0 / gam gamma blocks, clipping, cache invariant + refutation, order, export and the MVN law are "
-               "proved for all inputs. Not proved in Coq (stretch): the horseshoe auxiliary steps (phiaux, phi, etaaux, eta); they are in "
-               "the executable model, compared on every case, and checked by the predicate against a numpy log joint. The predicate "
+               "proved for all inputs. The horseshoe steps (phiaux, phi, etaaux, eta of _prec_V0/V2/V1_step) are proved for all inputs as "
+               "well (C08_horseshoe_*): GibbsSpec.v's energy_hs adds to energy the half-Cauchy hyper-priors of the scales 1/sqrt(phi), "
+               "1/sqrt(eta) in gamma-mixture form (p | a ~ Gamma(1/2, rate a), a ~ Gamma(1/2, rate 1), normalising constant -ln a included; "
+               "phi, eta are precisions and the code's aux is the rate a, so no draw is inverted), written from the prior's description and "
+               "not from the update formulas; each vectorised draw's (shape, rates) are proved to be the coefficients of -2 ln x and 2 x of "
+               "the complete joint, jointly for the whole group. As for prec/tau0/gam the code's +1e-3 on the phi/eta rates is part of the "
+               "specified model (an exponential tilt exp(-0.001 p) of the half-Cauchy prior; C08_horseshoe_jitter_is_tilt makes the distance to "
+               "the plain horseshoe explicit: same shape, rate + 0.001; the auxiliary draws carry no jitter and are exact for both). These steps "
+               "are also in the executable model, compared on every case, and checked by the predicate against a numpy log joint. The predicate "
                "re-derives every draw's arguments from an independent numpy log joint by exact quadratic / log-linear fitting of term-wise "
                "energy differences. Findings on the unchanged tree: (1) a row with the same non-control treatment in both columns: the "
                "V0/V2/V1 draws are not the full conditional and Mu is stale for the rest of the sweep (signature "
